@@ -269,8 +269,9 @@ def run_check(prop_cls, tier, seed, replay=None):
     known_lines = {}
 
     # 1. models
+    # (replay also runs the models: scenarios refer to what they emit -- operand pools, gate alphabets, maps)
+    prop.models()
     if replay is None:
-        prop.models()
         for mv in prop.model_violations:
             violations.append({"clause": "Model:" + mv["name"], "source": "model", "detail": mv, "rec": {"op": "model", "pkg": "spec"}, "scn": {"model": mv["model"]}})
 
